@@ -66,13 +66,20 @@ P = {
     "claimed": True,
     "coq_targets": ["Properties/C19.vo", "Run/Eval_C19.vo"],
     "theorems_module": "Properties.C19",
-    "theorems": ["C19_reload_total", "C19_reload_total_any_fixed", "C19_reload_total_guarded", "C19_reload_exit_iff_guards",
-                 "C19_find_chain_terminates", "C19_pinned_exhaustion_is_divergence", "C19_empty_store_iff", "C19_accepted_sizes_have_jwk", "C19_size_tables_agree", "C19_size_ok_exact", "C19_truststore_total", "C19_truststore_panic_iff",
-                 "C19_ruleset_total", "C19_ruleset_total_typed", "C19_ruleset_total_guarded", "C19_F3_only_ill_typed", "C19_decode_scopes_panic_iff", "C19_decode_scopes_total_fixed", "C19_F9_refuted",
-                 "C19_fs_total", "C19_fs_total_guarded", "C19_fs_exit_iff_guard",
+    "theorems": ["C19_reload_total", "C19_partial_rejected_guarded", "C19_partial_rejected_fixed",
+                 "C19_reload_run_alive", "C19_reload_run_all_rejected", "C19_reload_run_last_good",
+                 "C19_reload_total_any_fixed", "C19_reload_total_guarded", "C19_reload_exit_iff_guards",
+                 "C19_find_chain_terminates", "C19_pinned_exhaustion_is_divergence", "C19_empty_store_iff",
+                 "C19_accepted_sizes_have_jwk", "C19_size_tables_agree",
+                 "C19_truststore_total", "C19_truststore_partial_rejected_fixed", "C19_truststore_panic_iff",
+                 "C19_ruleset_total", "C19_ruleset_total_typed", "C19_F3_only_ill_typed",
+                 "C19_decode_scopes_panic_iff", "C19_decode_scopes_total_fixed",
+                 "C19_fs_total", "C19_fs_run_alive", "C19_fs_run_last_good", "C19_fs_empty_keeps_state_guarded",
+                 "C19_fs_total_guarded", "C19_fs_exit_iff_guard",
                  "C19_request_panic_is_non_success", "C19_composite_extract_panic_iff",
                  "C19_F1_pinned_refuted", "C19_F2_pinned_refuted", "C19_F3_pinned_refuted", "C19_F4_pinned_refuted",
                  "C19_F5_pinned_refuted", "C19_F6_pinned_refuted", "C19_F7_pinned_refuted", "C19_F8_pinned_refuted",
+                 "C19_F9_refuted", "C19_F10_refuted", "C19_F10_truststore_refuted", "C19_F11_refuted",
                  "C19_reload_nonvacuous"],
     "streams": [{
         # key store, trust store and request streams (no in-package access needed) share one driver binary
